@@ -63,7 +63,7 @@ def gen_request(rng, limit=51200, want_body=None, want_expect=None, long_lines=F
         else:
             n = rng.randint(1, 6000)
         if limit < n:
-            n = limit if limit > 0 and rng.random() < 0.7 else n
+            n = limit
         if n == 0:
             has_body = False
     nh = rng.randint(0, 5)
